@@ -15,6 +15,12 @@ theorem C04_initial (W : World) (P : Params) (sl : Slots) :
   unfold configInit
   cases W.stackOk sl <;> cases W.valid sl <;> cases Facts.initialVerify P.skipInitial P.delay <;> simp
 
+/-- F5o: when `Config` fails (`configInit = .err`), the model has no state at all - no monitor, no callback goroutine,
+nothing that could receive a later report and install it on top of the refused stack.  The code agrees because the
+initial verification is the statement BEFORE the one that starts the two goroutines (regenerated). -/
+theorem C04_refused_initial_stack_starts_nothing : Facts.initialVerifyBeforeGoroutines = true := by
+  decide
+
 theorem C04_initial_version (W : World) (P : Params) (sl : Slots) (v : Version)
     (h : configInit W P sl = .ok v) : v = ⟨0, sl⟩ := by
   unfold configInit at h
